@@ -28,7 +28,9 @@ import (
 	"math/rand/v2"
 	"os"
 	"path/filepath"
+	"runtime"
 	"sort"
+	"strconv"
 	"sync"
 	"sync/atomic"
 	"testing"
@@ -57,6 +59,68 @@ type vf16Blob struct {
 	mu           sync.Mutex
 	rng          *rand.Rand
 	failed, ok   atomic.Int64
+	batches      atomic.Int64  // batch writes asked for
+	inflight     map[int64]int // batch writes in progress: entry stamp -> largest object
+	batchObjs    atomic.Int64  // objects in them
+
+	// onBatch, when set, is called on the flush worker's goroutine right before (phase 0)
+	// and right after (phase 1) the objects of a background flush batch are written.
+	onBatch atomic.Pointer[func(phase int, m map[oid.Address][]byte, entered int64)]
+	wmu     sync.Mutex
+	writes  map[oid.Address][]*vf16Write // every write of an address the blobstor was asked for
+}
+
+// vf16Write is one write the blobstor was asked for (a flush of the write-cache, or a put
+// that bypassed the cache), with the moment the flush finished removing the cached copies.
+type vf16Write struct {
+	start, end int64
+	ok         bool
+	direct     atomic.Bool  // written by a client put that bypassed the cache: no cache clean-up follows
+	cleaned    atomic.Int64 // stamp of the end of the cache clean-up that followed the write; 0 = not seen
+}
+
+// vf16Flights: goroutine id -> the latest write that goroutine made; the flush step points
+// that end a flush run on the same goroutine and close the record (step points are global,
+// the goroutine tells which round and which write they belong to).
+var vf16Flights sync.Map
+
+func vf16Gid() uint64 {
+	var b [64]byte
+	f := bytes.Fields(b[:runtime.Stack(b[:], false)])
+	if len(f) < 2 {
+		return 0
+	}
+	id, _ := strconv.ParseUint(string(f[1]), 10, 64)
+	return id
+}
+
+// vf16FlushEnded is called from the step points "flush of a single object removed the cached
+// copy" and "worker is done with its batch".
+func vf16FlushEnded() {
+	if v, ok := vf16Flights.LoadAndDelete(vf16Gid()); ok {
+		v.(*vf16Write).cleaned.Store(vf16Clock.Add(1))
+	}
+}
+
+func (b *vf16Blob) logWrites(start int64, ok bool, addrs ...oid.Address) {
+	w := &vf16Write{start: start, end: vf16Clock.Add(1), ok: ok}
+	b.wmu.Lock()
+	if b.writes == nil {
+		b.writes = map[oid.Address][]*vf16Write{}
+	}
+	for _, a := range addrs {
+		b.writes[a] = append(b.writes[a], w)
+	}
+	b.wmu.Unlock()
+	if ok {
+		vf16Flights.Store(vf16Gid(), w)
+	}
+}
+
+func (b *vf16Blob) writesOf(a oid.Address) []*vf16Write {
+	b.wmu.Lock()
+	defer b.wmu.Unlock()
+	return append([]*vf16Write(nil), b.writes[a]...)
 }
 
 var errVf16Blob = errors.New("vf16: injected blobstor write failure")
@@ -80,19 +144,56 @@ func (b *vf16Blob) fail() error {
 }
 
 func (b *vf16Blob) Put(a oid.Address, d []byte) error {
+	start := vf16Clock.Add(1)
 	if err := b.fail(); err != nil {
+		b.logWrites(start, false, a)
 		return err
 	}
 	b.ok.Add(1)
-	return b.FSTree.Put(a, d)
+	err := b.FSTree.Put(a, d)
+	b.logWrites(start, err == nil, a)
+	return err
 }
 
 func (b *vf16Blob) PutBatch(m map[oid.Address][]byte) error {
+	addrs := make([]oid.Address, 0, len(m))
+	for a := range m {
+		addrs = append(addrs, a)
+	}
+	f := b.onBatch.Load()
+	entered := vf16Clock.Add(1)
+	b.batches.Add(1)
+	b.batchObjs.Add(int64(len(m)))
+	mx := 0
+	for _, d := range m {
+		mx = max(mx, len(d))
+	}
+	b.wmu.Lock()
+	if b.inflight == nil {
+		b.inflight = map[int64]int{}
+	}
+	b.inflight[entered] = mx
+	b.wmu.Unlock()
+	defer func() {
+		b.wmu.Lock()
+		delete(b.inflight, entered)
+		b.wmu.Unlock()
+	}()
+	if f != nil {
+		(*f)(0, m, entered)
+	}
+	start := vf16Clock.Add(1)
 	if err := b.fail(); err != nil {
+		b.logWrites(start, false, addrs...)
 		return err
 	}
 	b.ok.Add(1)
-	return b.FSTree.PutBatch(m)
+	err := b.FSTree.PutBatch(m)
+	b.logWrites(start, err == nil, addrs...)
+	if f != nil {
+		(*f)(1, m, entered)
+	}
+	return err
 }
 
 // vf16WC records which puts/reads the write-cache itself served.
@@ -230,6 +331,33 @@ type vf16Round struct {
 	acked    map[oid.Address]int64 // stamp of the first return of a successful cached put
 	delCall  map[oid.Address]int64 // stamp of the first delete call
 	clientID atomic.Int32
+
+	// per address, for the "in blob storage after a flush" oracle on re-created objects
+	delCalls, delRets map[oid.Address]int        // delete calls issued / returned
+	stable            map[oid.Address]vf16Stable // latest acknowledged cached put that no delete overlaps or follows
+	live              map[oid.Address]bool       // harness view: last finished cached put is not followed by a delete call
+
+	// phase-aligned client (see phase)
+	phaseOn   atomic.Bool
+	phMu      sync.Mutex
+	modeGate  sync.RWMutex // a mode switch excludes the phase-aligned client
+	flushGate sync.RWMutex // an explicit flush excludes the phase-aligned client
+	phRng     *rand.Rand
+	phCl      int
+	workers   int
+	pending   []*vf16Pending
+}
+
+type vf16Stable struct {
+	call int64
+	ret  int64 // return stamp of the put
+	dc   int   // delete calls issued when the put was called (none of them in flight)
+}
+
+// vf16Pending is an object the phase-aligned client deleted and will put again.
+type vf16Pending struct {
+	o    *vf16Obj
+	hold int // batch writes to let pass before the re-put
 }
 
 var vf16Clock atomic.Int64
@@ -277,10 +405,31 @@ func (x *vf16Round) record(a oid.Address, in vf16In, out vf16Out, call, ret int6
 func (x *vf16Round) put(o *vf16Obj, cl int) {
 	x.shMu.RLock()
 	defer x.shMu.RUnlock()
+	x.putNL(o, cl)
+}
+
+// putNL: the caller holds shMu for reading.
+func (x *vf16Round) putNL(o *vf16Obj, cl int) {
 	before := x.wc.puts(o.addr)
+	x.mu.Lock()
+	dc, dr := x.delCalls[o.addr], x.delRets[o.addr]
+	x.mu.Unlock()
+	gid := vf16Gid()
+	prevW, hadW := vf16Flights.Load(gid)
 	call := vf16Clock.Add(1)
 	var err error
-	if x.r.Guard(x.desc, func() { err = x.sh.Put(o.obj, o.bin) }) {
+	panicked := x.r.Guard(x.desc, func() { err = x.sh.Put(o.obj, o.bin) })
+	// a blobstor write made on this goroutine during the call is the put itself bypassing the
+	// cache, not a flush
+	if w, ok := vf16Flights.Load(gid); ok && (!hadW || w != prevW) {
+		w.(*vf16Write).direct.Store(true)
+		if hadW {
+			vf16Flights.Store(gid, prevW)
+		} else {
+			vf16Flights.Delete(gid)
+		}
+	}
+	if panicked {
 		return
 	}
 	ret := vf16Clock.Add(1)
@@ -290,6 +439,14 @@ func (x *vf16Round) put(o *vf16Obj, cl int) {
 		x.mu.Lock()
 		if _, ok := x.acked[o.addr]; !ok {
 			x.acked[o.addr] = ret
+		}
+		if dc == dr && x.delCalls[o.addr] == dc {
+			// no delete was in flight when the put was called and none was called since
+			x.stable[o.addr] = vf16Stable{call: call, ret: ret, dc: dc}
+			x.live[o.addr] = true
+			if dc > 0 {
+				x.r.Count("puts_ok_through_cache_of_a_deleted_object", 1)
+			}
 		}
 		x.mu.Unlock()
 		x.record(o.addr, vf16In{Kind: "put"}, vf16Out{Res: "ok-cached"}, call, ret, cl)
@@ -307,14 +464,25 @@ func (x *vf16Round) put(o *vf16Obj, cl int) {
 func (x *vf16Round) del(o *vf16Obj, cl int) {
 	x.shMu.RLock()
 	defer x.shMu.RUnlock()
+	x.delNL(o, cl)
+}
+
+// delNL: the caller holds shMu for reading.
+func (x *vf16Round) delNL(o *vf16Obj, cl int) {
 	call := vf16Clock.Add(1)
 	x.mu.Lock()
 	if _, ok := x.delCall[o.addr]; !ok {
 		x.delCall[o.addr] = call
 	}
+	x.delCalls[o.addr]++
+	x.live[o.addr] = false
 	x.mu.Unlock()
 	var err error
-	if x.r.Guard(x.desc, func() { err = x.sh.Delete(o.addr.Container(), []oid.ID{o.addr.Object()}) }) {
+	panicked := x.r.Guard(x.desc, func() { err = x.sh.Delete(o.addr.Container(), []oid.ID{o.addr.Object()}) })
+	x.mu.Lock()
+	x.delRets[o.addr]++
+	x.mu.Unlock()
+	if panicked {
 		return
 	}
 	ret := vf16Clock.Add(1)
@@ -391,7 +559,10 @@ func (x *vf16Round) flush() {
 	defer x.shMu.RUnlock()
 	call := vf16Clock.Add(1)
 	var err error
-	if x.r.Guard(x.desc, func() { err = x.sh.FlushWriteCache(false) }) {
+	x.flushGate.Lock()
+	panicked := x.r.Guard(x.desc, func() { err = x.sh.FlushWriteCache(false) })
+	x.flushGate.Unlock()
+	if panicked {
 		return
 	}
 	if err != nil {
@@ -403,24 +574,206 @@ func (x *vf16Round) flush() {
 		return
 	}
 	x.r.Count("flushes_ok", 1)
+	// Bound by the statement: objects with a cached put acknowledged before the flush was
+	// called that are not deleted: nobody ever deletes them, or (re-created objects) no delete
+	// overlapped or followed that put up to the end of the comparison.
+	type mustT struct {
+		o  *vf16Obj
+		dc int
+		sp vf16Stable
+	}
 	x.mu.Lock()
-	var must []*vf16Obj
+	var must []mustT
 	for _, o := range x.objs {
 		if st, ok := x.acked[o.addr]; ok && st < call && !o.del {
-			must = append(must, o)
+			must = append(must, mustT{o: o, dc: -1})
+		} else if sp, ok := x.stable[o.addr]; ok && o.del && sp.ret < call && x.delCalls[o.addr] == sp.dc {
+			must = append(must, mustT{o: o, dc: sp.dc, sp: sp})
 		}
 	}
 	x.mu.Unlock()
-	for _, o := range must {
+	for _, mu := range must {
+		o := mu.o
 		b, gerr := x.blob.FSTree.GetBytes(o.addr)
+		kind := "never-deleted"
+		if mu.dc >= 0 {
+			x.mu.Lock()
+			same := x.delCalls[o.addr] == mu.dc
+			x.mu.Unlock()
+			if !same {
+				continue // a delete was called meanwhile: the statement no longer binds
+			}
+			kind = "not-deleted-since-its-put"
+			if mu.dc > 0 {
+				kind = "put-again-after-delete"
+				if gerr != nil && x.staleFlush(o.addr, mu.sp.call, mu.sp.ret) {
+					kind += "|" + vf16StaleKey
+				}
+			}
+		}
 		switch {
 		case gerr != nil:
-			x.r.Violation("flush-ok-but-object-not-in-blobstor", fmt.Sprintf("round %d: FlushWriteCache returned nil but %s (put acknowledged before the flush, never deleted) is not in the blobstor: %v", x.idx, o.addr, gerr), x.desc)
+			x.r.Violation("flush-ok-but-object-not-in-blobstor|"+kind, fmt.Sprintf("round %d: FlushWriteCache returned nil but %s (put through the cache acknowledged before the flush, %s) is not in the blobstor: %v", x.idx, o.addr, kind, gerr), x.desc)
 		case !bytes.Equal(b, o.bin):
-			x.r.Violation("flush-ok-but-blobstor-bytes-differ", fmt.Sprintf("round %d: after flush %s has %d bytes in the blobstor, %d were put", x.idx, o.addr, len(b), len(o.bin)), x.desc)
+			x.r.Violation("flush-ok-but-blobstor-bytes-differ|"+kind, fmt.Sprintf("round %d: after flush %s has %d bytes in the blobstor, %d were put", x.idx, o.addr, len(b), len(o.bin)), x.desc)
 		default:
 			x.r.Count("objects_verified_in_blobstor_after_flush", 1)
+			if mu.dc > 0 {
+				x.r.Count("recreated_objects_verified_in_blobstor_after_flush", 1)
+			}
 		}
+	}
+}
+
+// phase is the phase-aligned client.  It runs on the goroutine of a background flush worker,
+// at the two moments the blobstor sees of a flush batch: ph 0 = the batch was read from the
+// cache and is about to be written, ph 1 = it was written and its cached copies are about to
+// be removed.  After a batch write it deletes a few acknowledged objects (preferably the ones
+// the scheduler flushes next: the next sizes in ascending order); before a later batch write
+// it puts them again.  That gives every order of "object removed / re-created" against
+// "batch composed / read / written / cleaned up" for addresses that sit in the flush
+// pipeline - with the ordinary client calls Shard.Delete and Shard.Put.
+// To stay clear of self-deadlock (the worker holds the cache's mode lock for reading) it
+// steps aside whenever a mode switch, an explicit flush or a restart is running or waiting.
+func (x *vf16Round) phase(ph int, m map[oid.Address][]byte, entered int64) {
+	if !x.phaseOn.Load() {
+		return
+	}
+	if !x.shMu.TryRLock() {
+		return
+	}
+	defer x.shMu.RUnlock()
+	if !x.modeGate.TryRLock() {
+		return
+	}
+	defer x.modeGate.RUnlock()
+	if !x.flushGate.TryRLock() {
+		return
+	}
+	defer x.flushGate.RUnlock()
+	x.phMu.Lock()
+	defer x.phMu.Unlock()
+	if !x.phaseOn.Load() {
+		return
+	}
+	x.r.Count("phase_client_steps", 1)
+	if ph == 0 {
+		keep := x.pending[:0]
+		for _, p := range x.pending {
+			if p.hold--; p.hold > 0 {
+				keep = append(keep, p)
+				continue
+			}
+			x.r.Count("phase_client_puts_again_while_a_batch_is_written", 1)
+			x.putNL(p.o, x.phCl)
+		}
+		x.pending = keep
+		return
+	}
+	const maxPending = 6
+	if len(x.pending) >= maxPending {
+		return
+	}
+	// the largest object of all batches being written now: what the scheduler hands over
+	// next is larger
+	mx := 0
+	x.blob.wmu.Lock()
+	for _, v := range x.blob.inflight {
+		mx = max(mx, v)
+	}
+	x.blob.wmu.Unlock()
+	type candT struct {
+		o      *vf16Obj
+		cached bool // harness guess: its latest cached put is younger than every blobstor write of it and older than this batch
+	}
+	var cand []candT
+	x.mu.Lock()
+	for _, o := range x.objs {
+		if o.del && x.live[o.addr] {
+			cand = append(cand, candT{o: o, cached: true})
+		}
+	}
+	for i := range cand {
+		putRet := x.stable[cand[i].o.addr].ret
+		if putRet > entered {
+			cand[i].cached = false
+		}
+		for _, w := range x.blob.writesOf(cand[i].o.addr) {
+			if w.ok && w.end > putRet {
+				cand[i].cached = false
+			}
+		}
+	}
+	x.mu.Unlock()
+	sort.SliceStable(cand, func(i, j int) bool { return len(cand[i].o.bin) < len(cand[j].o.bin) })
+	next := 0
+	for _, c := range cand {
+		o := c.o
+		_, inBatch := m[o.addr]
+		pick := false
+		switch {
+		case inBatch:
+			pick = x.phRng.IntN(6) == 0
+		case c.cached && len(o.bin) >= mx && next < 2: // next in the flush order
+			next++
+			pick = x.phRng.IntN(6) != 0
+		default:
+			pick = x.phRng.IntN(8) == 0
+		}
+		if !pick || len(x.pending) >= maxPending {
+			continue
+		}
+		x.r.Count("phase_client_deletes_after_a_batch_was_written", 1)
+		x.delNL(o, x.phCl)
+		hold := 1
+		if x.phRng.IntN(4) == 0 {
+			hold = 2
+		}
+		x.pending = append(x.pending, &vf16Pending{o: o, hold: hold})
+	}
+}
+
+// staleFlush tells whether the loss of an object after its cached put [pCall,pRet] can be the
+// work of a flush of an OLDER copy of the address: the flush wrote the address to the
+// blobstor, a delete that finished after that write began (so it could remove the written
+// copy) was called before the put returned, and the flush had not finished removing cached
+// copies when the put was called (so it could remove the new one).
+func (x *vf16Round) staleFlush(a oid.Address, pCall, pRet int64) bool {
+	var dels [][2]int64
+	x.mu.Lock()
+	for _, op := range x.ops {
+		if op.addr == a && op.op.Input.(vf16In).Kind == "delete" {
+			dels = append(dels, [2]int64{op.op.Call, op.op.Return})
+		}
+	}
+	x.mu.Unlock()
+	for _, w := range x.blob.writesOf(a) {
+		if !w.ok || w.direct.Load() || w.start > pRet {
+			continue
+		}
+		if c := w.cleaned.Load(); c != 0 && c < pCall {
+			continue
+		}
+		for _, d := range dels {
+			if d[1] > w.start && d[0] < pRet {
+				return true
+			}
+		}
+	}
+	return false
+}
+
+const vf16StaleKey = "older-copy-flush-cleans-up-after-delete-and-put-again"
+
+// phaseStop disarms the phase-aligned client and puts back what it still holds.
+func (x *vf16Round) phaseStop() {
+	x.phaseOn.Store(false)
+	x.phMu.Lock()
+	pend := x.pending
+	x.pending = nil
+	x.phMu.Unlock()
+	for _, p := range pend {
+		x.put(p.o, x.phCl)
 	}
 }
 
@@ -428,7 +781,9 @@ func (x *vf16Round) setMode(m mode.Mode) {
 	x.shMu.RLock()
 	defer x.shMu.RUnlock()
 	var err error
+	x.modeGate.Lock()
 	x.r.Guard(x.desc, func() { err = x.sh.SetMode(m) })
+	x.modeGate.Unlock()
 	if err != nil {
 		x.r.Count("mode_switch_errors", 1)
 	} else {
@@ -454,151 +809,9 @@ func (x *vf16Round) restart() bool {
 	return true
 }
 
-func vf16RunRound(r *verifkit.Run, idx int) {
-	rng := r.Rand("round", idx)
-	base := os.Getenv("VERIF_SCRATCH")
-	if base == "" {
-		base = os.TempDir()
-	}
-	dir, err := os.MkdirTemp(base, fmt.Sprintf("c16-%d-", idx))
-	if err != nil {
-		r.Inconclusive(err.Error())
-		return
-	}
-	defer os.RemoveAll(dir)
-	thr := uint64(1024 << rng.IntN(2))
-	workers, bcount := 1+rng.IntN(3), 2+rng.IntN(4)
-	maxSize := uint64(24<<10) << rng.IntN(4) // small caches overflow: some puts bypass the cache
-	failP := []int32{0, 300, 600}[rng.IntN(3)]
-	x := &vf16Round{r: r, idx: idx, dir: dir, acked: map[oid.Address]int64{}, delCall: map[oid.Address]int64{},
-		blob: &vf16Blob{rng: rand.New(rand.NewPCG(rng.Uint64(), rng.Uint64()))},
-		wcOpts: []writecache.Option{writecache.WithFlushWorkersCount(workers), writecache.WithMaxFlushBatchThreshold(thr),
-			writecache.WithMaxFlushBatchCount(bcount), writecache.WithMaxFlushBatchSize(thr * uint64(2+rng.IntN(4))), writecache.WithMaxCacheSize(maxSize)}}
-	x.desc = map[string]any{"round": idx, "workers": workers, "batch_threshold": thr, "batch_count": bcount, "max_cache_size": maxSize, "blob_fail_permille": failP}
-	if err := x.open(); err != nil {
-		r.Inconclusive("open: " + err.Error())
-		return
-	}
-	cnr, owner := verifkit.RandCID(rng), verifkit.RandUser(rng)
-	nObj := 16 + rng.IntN(12)
-	for i := 0; i < nObj; i++ {
-		var pl int
-		switch rng.IntN(6) {
-		case 0:
-			pl = int(thr) - 220 + rng.IntN(60) // marshalled size around the batch threshold
-		case 1, 2, 3, 4:
-			pl = 16 + rng.IntN(400)
-		default:
-			pl = int(thr)*2 + rng.IntN(int(thr))
-		}
-		ob := verifkit.NewObject(rng, cnr, owner, pl)
-		x.objs = append(x.objs, &vf16Obj{obj: ob, bin: ob.Marshal(), addr: verifkit.Addr(ob), del: i%3 == 2})
-	}
-	segments := 2 + rng.IntN(2)
-	for seg := 0; seg < segments; seg++ {
-		var wg sync.WaitGroup
-		client := func(f func(crng *rand.Rand, cl int)) {
-			crng := rand.New(rand.NewPCG(rng.Uint64(), rng.Uint64()))
-			cl := int(x.clientID.Add(1))
-			wg.Add(1)
-			go func() { defer wg.Done(); f(crng, cl) }()
-		}
-		pause := func(crng *rand.Rand, maxMs int) { time.Sleep(time.Duration(crng.IntN(maxMs*1000)) * time.Microsecond) }
-		// putters: each owns a slice of the universe; repeats allowed
-		nPut := 2 + rng.IntN(2)
-		for p := 0; p < nPut; p++ {
-			client(func(crng *rand.Rand, cl int) {
-				for i := p; i < len(x.objs); i += nPut {
-					if seg > 0 && crng.IntN(3) != 0 {
-						continue // later segments re-put only some (also re-creates deleted ones)
-					}
-					x.put(x.objs[i], cl)
-					if crng.IntN(5) == 0 {
-						x.put(x.objs[i], cl)
-					}
-					pause(crng, 280) // spread over several flush ticks
-				}
-			})
-		}
-		// readers
-		apis := []string{"Get", "GetBytes", "GetStream", "GetBytesWithMetadataLookup"}
-		for rd := 0; rd < 3; rd++ {
-			client(func(crng *rand.Rand, cl int) {
-				for i := 0; i < 110; i++ {
-					x.read(x.objs[crng.IntN(len(x.objs))], apis[crng.IntN(len(apis))], cl)
-					pause(crng, 40)
-				}
-			})
-		}
-		// deleter
-		client(func(crng *rand.Rand, cl int) {
-			for i := 0; i < 14; i++ {
-				pause(crng, 300)
-				// only objects whose cached put was acknowledged are deleted ("until the object
-				// is deleted"); deleting never-stored addresses is not part of this property
-				o := x.objs[crng.IntN(len(x.objs))]
-				x.mu.Lock()
-				_, ack := x.acked[o.addr]
-				x.mu.Unlock()
-				if o.del && ack {
-					x.del(o, cl)
-				}
-			}
-		})
-		// explicit flushes
-		client(func(crng *rand.Rand, _ int) {
-			for i := 0; i < 2; i++ {
-				pause(crng, 2200)
-				x.flush()
-			}
-		})
-		// mode switches
-		client(func(crng *rand.Rand, _ int) {
-			for i := 0; i < 2; i++ {
-				pause(crng, 1800)
-				m := []mode.Mode{mode.ReadOnly, mode.ReadOnly, mode.DegradedReadOnly}[crng.IntN(3)]
-				x.setMode(m)
-				pause(crng, 150)
-				x.setMode(mode.ReadWrite)
-			}
-		})
-		// blobstor fault windows
-		client(func(crng *rand.Rand, _ int) {
-			for i := 0; i < 3 && failP > 0; i++ {
-				pause(crng, 500)
-				x.blob.failPermille.Store(failP)
-				pause(crng, 900)
-				x.blob.failPermille.Store(0)
-			}
-		})
-		wg.Wait()
-		x.blob.failPermille.Store(0)
-		x.setMode(mode.ReadWrite)
-		if seg < segments-1 && !x.restart() {
-			return
-		}
-	}
-	// final: everything acknowledged and never deleted must be readable now, after a restart,
-	// and after a successful explicit flush it must be in the blobstor
-	for pass := 0; pass < 2; pass++ {
-		for _, o := range x.objs {
-			x.mu.Lock()
-			_, ack := x.acked[o.addr]
-			x.mu.Unlock()
-			if ack {
-				x.read(o, []string{"Get", "GetStream"}[pass], 0)
-			}
-		}
-		if pass == 0 {
-			x.flush()
-			if !x.restart() {
-				return
-			}
-		}
-	}
-	x.r.Guard(x.desc, func() { _ = x.sh.Close() })
-
-	// ---- judge the histories ----
+// judge checks the recorded history of every address against the register model.
+func (x *vf16Round) judge() {
+	r, idx := x.r, x.idx
 	byAddr := map[oid.Address][]porcupine.Operation{}
 	for _, op := range x.ops {
 		byAddr[op.addr] = append(byAddr[op.addr], op.op)
@@ -655,19 +868,342 @@ func vf16RunRound(r *verifkit.Run, idx int) {
 			x.mu.Lock()
 			_, deleted := x.delCall[a]
 			x.mu.Unlock()
-			key := fmt.Sprintf("history-not-linearizable|read=%s|deleted-in-history=%v", bad, deleted)
+			// The first "not found" that follows an acknowledged cached put which no delete
+			// overlaps or follows, and what the blobstor saw of the address around that put:
+			// tells "the cache dropped a copy that never went to the blobstor" from "a flush
+			// of an older copy removed the new one" from "a flushed copy disappeared".
+			wr, stale := "no-unexcused-not-found", false
+		find:
+			for _, rd := range h {
+				if rd.Input.(vf16In).Kind != "read" || rd.Output.(vf16Out).Res != "notfound" {
+					continue
+				}
+				var p *porcupine.Operation
+				for i := range h {
+					if h[i].Input.(vf16In).Kind == "put" && h[i].Output.(vf16Out).Res == "ok-cached" && h[i].Return < rd.Call && (p == nil || h[i].Call > p.Call) {
+						p = &h[i]
+					}
+				}
+				if p == nil {
+					continue
+				}
+				for _, d := range h {
+					if d.Input.(vf16In).Kind == "delete" && d.Return > p.Call && d.Call < rd.Return {
+						continue find
+					}
+				}
+				bad = rd.Input.(vf16In).API
+				stale = x.staleFlush(a, p.Call, p.Return)
+				wr = "not-written-to-blobstor-since-that-put"
+				for _, w := range x.blob.writesOf(a) {
+					if w.ok && w.start > p.Call && w.start < rd.Call {
+						wr = "written-to-blobstor-since-that-put"
+					}
+				}
+				break
+			}
+			key := fmt.Sprintf("history-not-linearizable|read=%s|deleted-in-history=%v|%s", bad, deleted, wr)
+			if stale {
+				key = "history-not-linearizable|" + vf16StaleKey
+			}
 			r.Violation(key, fmt.Sprintf("round %d: no order of the calls on %s explains the answers: an object put through the write-cache was not readable (or an object appeared that nobody put)", idx, a),
 				map[string]any{"round": x.desc, "address": a.String(), "history": lines})
 		}
 	}
+}
+
+func vf16RunRound(r *verifkit.Run, idx int) {
+	rng := r.Rand("round", idx)
+	base := os.Getenv("VERIF_SCRATCH")
+	if base == "" {
+		base = os.TempDir()
+	}
+	dir, err := os.MkdirTemp(base, fmt.Sprintf("c16-%d-", idx))
+	if err != nil {
+		r.Inconclusive(err.Error())
+		return
+	}
+	defer os.RemoveAll(dir)
+	thr := uint64(1024 << rng.IntN(2))
+	workers, bcount := 1+rng.IntN(3), 2+rng.IntN(4)
+	maxSize := uint64(24<<10) << rng.IntN(4) // small caches overflow: some puts bypass the cache
+	failP := []int32{0, 0, 300, 600}[rng.IntN(4)]
+	phaseClient := rng.IntN(4) != 0
+	x := &vf16Round{r: r, idx: idx, dir: dir, acked: map[oid.Address]int64{}, delCall: map[oid.Address]int64{},
+		delCalls: map[oid.Address]int{}, delRets: map[oid.Address]int{}, stable: map[oid.Address]vf16Stable{}, live: map[oid.Address]bool{},
+		phRng: rand.New(rand.NewPCG(rng.Uint64(), rng.Uint64())),
+		blob:  &vf16Blob{rng: rand.New(rand.NewPCG(rng.Uint64(), rng.Uint64()))},
+		wcOpts: []writecache.Option{writecache.WithFlushWorkersCount(workers), writecache.WithMaxFlushBatchThreshold(thr),
+			writecache.WithMaxFlushBatchCount(bcount), writecache.WithMaxFlushBatchSize(thr * uint64(2+rng.IntN(4))), writecache.WithMaxCacheSize(maxSize)}}
+	x.desc = map[string]any{"round": idx, "workers": workers, "batch_threshold": thr, "batch_count": bcount, "max_cache_size": maxSize, "blob_fail_permille": failP, "phase_aligned_client": phaseClient}
+	x.phCl = int(x.clientID.Add(1))
+	x.workers = workers
+	if phaseClient {
+		f := x.phase
+		x.blob.onBatch.Store(&f)
+	}
+	if err := x.open(); err != nil {
+		r.Inconclusive("open: " + err.Error())
+		return
+	}
+	cnr, owner := verifkit.RandCID(rng), verifkit.RandUser(rng)
+	nObj := 28 + rng.IntN(16)
+	for i := 0; i < nObj; i++ {
+		var pl int
+		switch rng.IntN(6) {
+		case 0:
+			pl = int(thr) - 220 + rng.IntN(60) // marshalled size around the batch threshold
+		case 1, 2, 3, 4:
+			pl = 16 + rng.IntN(400)
+		default:
+			pl = int(thr)*2 + rng.IntN(int(thr))
+		}
+		ob := verifkit.NewObject(rng, cnr, owner, pl)
+		x.objs = append(x.objs, &vf16Obj{obj: ob, bin: ob.Marshal(), addr: verifkit.Addr(ob), del: i%2 == 1})
+	}
+	segments := 2 + rng.IntN(2)
+	for seg := 0; seg < segments; seg++ {
+		var wg sync.WaitGroup
+		client := func(f func(crng *rand.Rand, cl int)) {
+			crng := rand.New(rand.NewPCG(rng.Uint64(), rng.Uint64()))
+			cl := int(x.clientID.Add(1))
+			wg.Add(1)
+			go func() { defer wg.Done(); f(crng, cl) }()
+		}
+		pause := func(crng *rand.Rand, maxMs int) { time.Sleep(time.Duration(crng.IntN(maxMs*1000)) * time.Microsecond) }
+		x.phaseOn.Store(phaseClient)
+		// putters: each owns a slice of the universe; repeats allowed
+		nPut := 2 + rng.IntN(2)
+		for p := 0; p < nPut; p++ {
+			client(func(crng *rand.Rand, cl int) {
+				for i := p; i < len(x.objs); i += nPut {
+					if seg > 0 && crng.IntN(3) != 0 {
+						continue // later segments re-put only some (also re-creates deleted ones)
+					}
+					x.put(x.objs[i], cl)
+					if crng.IntN(5) == 0 {
+						x.put(x.objs[i], cl)
+					}
+					pause(crng, 280) // spread over several flush ticks
+				}
+			})
+		}
+		// churn: acknowledged small objects are put again all along the segment, so that every
+		// flush tick finds something to batch (a repeated put goes through the cache again)
+		for ch := 0; ch < 2; ch++ {
+			client(func(crng *rand.Rand, cl int) {
+				for i := 0; i < 60; i++ {
+					pause(crng, 80)
+					o := x.objs[crng.IntN(len(x.objs))]
+					x.mu.Lock()
+					_, ack := x.acked[o.addr]
+					gone := o.del && !x.live[o.addr]
+					x.mu.Unlock()
+					if ack && !gone && len(o.bin) <= int(thr) {
+						x.r.Count("churn_puts", 1)
+						x.put(o, cl)
+					}
+				}
+			})
+		}
+		// readers
+		apis := []string{"Get", "GetBytes", "GetStream", "GetBytesWithMetadataLookup"}
+		for rd := 0; rd < 3; rd++ {
+			client(func(crng *rand.Rand, cl int) {
+				for i := 0; i < 110; i++ {
+					x.read(x.objs[crng.IntN(len(x.objs))], apis[crng.IntN(len(apis))], cl)
+					pause(crng, 40)
+				}
+			})
+		}
+		// deleter
+		client(func(crng *rand.Rand, cl int) {
+			for i := 0; i < 14; i++ {
+				pause(crng, 300)
+				// only objects whose cached put was acknowledged are deleted ("until the object
+				// is deleted"); deleting never-stored addresses is not part of this property
+				o := x.objs[crng.IntN(len(x.objs))]
+				x.mu.Lock()
+				_, ack := x.acked[o.addr]
+				x.mu.Unlock()
+				if o.del && ack {
+					x.del(o, cl)
+					// half of the deleted objects are created again in the same run of the
+					// shard, at once or a little later (background flushes of the removed
+					// copy may still be anywhere between "scheduled" and "cleaned up")
+					if crng.IntN(2) == 0 {
+						if crng.IntN(2) == 0 {
+							pause(crng, 40)
+						}
+						x.put(o, cl)
+					}
+				}
+			}
+		})
+		// explicit flushes
+		client(func(crng *rand.Rand, _ int) {
+			for i := 0; i < 2; i++ {
+				pause(crng, 2200)
+				x.flush()
+			}
+		})
+		// mode switches
+		client(func(crng *rand.Rand, _ int) {
+			for i := 0; i < 2; i++ {
+				pause(crng, 1800)
+				m := []mode.Mode{mode.ReadOnly, mode.ReadOnly, mode.DegradedReadOnly}[crng.IntN(3)]
+				x.setMode(m)
+				pause(crng, 150)
+				x.setMode(mode.ReadWrite)
+			}
+		})
+		// blobstor fault windows
+		client(func(crng *rand.Rand, _ int) {
+			for i := 0; i < 3 && failP > 0; i++ {
+				pause(crng, 500)
+				x.blob.failPermille.Store(failP)
+				pause(crng, 900)
+				x.blob.failPermille.Store(0)
+			}
+		})
+		wg.Wait()
+		x.blob.failPermille.Store(0)
+		x.setMode(mode.ReadWrite)
+		x.phaseStop()
+		if seg < segments-1 && !x.restart() {
+			return
+		}
+	}
+	// final: everything acknowledged and never deleted must be readable now, after a restart,
+	// and after a successful explicit flush it must be in the blobstor
+	for pass := 0; pass < 2; pass++ {
+		for _, o := range x.objs {
+			x.mu.Lock()
+			_, ack := x.acked[o.addr]
+			x.mu.Unlock()
+			if ack {
+				x.read(o, []string{"Get", "GetStream"}[pass], 0)
+			}
+		}
+		if pass == 0 {
+			x.flush()
+			if !x.restart() {
+				return
+			}
+		}
+	}
+	x.r.Guard(x.desc, func() { _ = x.sh.Close() })
+
+	x.judge()
 	r.Count("cache_read_hits", int(x.wc.hits.Load()))
 	r.Count("cache_read_misses_fell_back_to_blobstor", int(x.wc.misses.Load()))
 	r.Count("cache_puts_refused_full", int(x.wc.putFull.Load()))
 	r.Count("blobstor_writes_ok", int(x.blob.ok.Load()))
 	r.Count("blobstor_writes_failed", int(x.blob.failed.Load()))
+	if phaseClient {
+		r.Count("rounds_with_phase_aligned_client", 1)
+	}
+	r.Count("blobstor_batch_writes", int(x.blob.batches.Load()))
+	r.Count("blobstor_batch_write_objects", int(x.blob.batchObjs.Load()))
+	r.Max("most_batch_writes_in_a_round", x.blob.batches.Load())
+	if os.Getenv("VF16_DEBUG") != "" {
+		fmt.Printf("VF16 round %d workers=%d bc=%d fail=%d phase=%v batches=%d objs=%d\n", idx, workers, bcount, failP, phaseClient, x.blob.batches.Load(), x.blob.batchObjs.Load())
+	}
 	r.Eval(1)
 	r.Distinct(fmt.Sprintf("round|%d|w=%d|thr=%d|bc=%d|max=%d|fail=%d|ops=%d", idx, workers, thr, bcount, maxSize, failP, len(x.ops)))
 	r.Sample(map[string]any{"round": x.desc, "objects": nObj, "segments": segments, "recorded_ops": len(x.ops)})
+}
+
+// vf16RunConstructed runs, alone and before the random rounds, the one order the random rounds
+// reach only by luck: an object is deleted and put again exactly between "a background flush
+// wrote it to the blobstor" and "the flush removes the cached copy" (the flush worker is held
+// at that step point).  which: "batch" (two small objects flushed as a batch) or "single" (an
+// object above the batch threshold flushed alone).  The calls are recorded and judged like in
+// every other round.
+func vf16RunConstructed(r *verifkit.Run, h *verifkit.Hooks, which string, idx int) {
+	rng := r.Rand("constructed", idx)
+	base := os.Getenv("VERIF_SCRATCH")
+	if base == "" {
+		base = os.TempDir()
+	}
+	dir, err := os.MkdirTemp(base, fmt.Sprintf("c16-constructed-%d-", idx))
+	if err != nil {
+		r.Inconclusive(err.Error())
+		return
+	}
+	defer os.RemoveAll(dir)
+	const thr = 1024
+	x := &vf16Round{r: r, idx: idx, dir: dir, acked: map[oid.Address]int64{}, delCall: map[oid.Address]int64{},
+		delCalls: map[oid.Address]int{}, delRets: map[oid.Address]int{}, stable: map[oid.Address]vf16Stable{}, live: map[oid.Address]bool{},
+		phRng: rand.New(rand.NewPCG(1, 1)), workers: 1,
+		blob: &vf16Blob{rng: rand.New(rand.NewPCG(1, 1))},
+		wcOpts: []writecache.Option{writecache.WithFlushWorkersCount(1), writecache.WithMaxFlushBatchThreshold(thr),
+			writecache.WithMaxFlushBatchCount(2), writecache.WithMaxFlushBatchSize(8 * thr), writecache.WithMaxCacheSize(1 << 20)}}
+	x.desc = map[string]any{"round": idx, "constructed": "delete-and-put-again-between-" + which + "-flush-write-and-cache-cleanup", "workers": 1, "batch_threshold": thr, "batch_count": 2}
+	x.phCl = int(x.clientID.Add(1))
+	if err := x.open(); err != nil {
+		r.Inconclusive("open: " + err.Error())
+		return
+	}
+	closed := false
+	defer func() {
+		if !closed {
+			x.r.Guard(x.desc, func() { _ = x.sh.Close() })
+		}
+	}()
+	cnr, owner := verifkit.RandCID(rng), verifkit.RandUser(rng)
+	sizes, point := []int{100, 200}, "writecache.flushBatch.stored"
+	if which == "single" {
+		sizes, point = []int{3 * thr}, "writecache.flushSingle.stored"
+	}
+	for _, pl := range sizes {
+		ob := verifkit.NewObject(rng, cnr, owner, pl)
+		x.objs = append(x.objs, &vf16Obj{obj: ob, bin: ob.Marshal(), addr: verifkit.Addr(ob), del: true})
+	}
+	done := h.Counts()["writecache.worker.done"]
+	reached, release := h.PauseAt(point, h.Counts()[point]+1)
+	defer release()
+	for _, o := range x.objs {
+		x.put(o, 1)
+	}
+	// the next flush tick hands the objects to the worker; it stops after the blobstor write
+	if !verifkit.WaitOrTimeout(reached, 2*time.Minute) {
+		r.Inconclusive(fmt.Sprintf("constructed %s: the background flush did not reach %s", which, point))
+		return
+	}
+	o := x.objs[0]
+	x.del(o, 2)
+	x.put(o, 2)
+	x.mu.Lock()
+	_, again := x.stable[o.addr]
+	again = again && x.live[o.addr] && x.delRets[o.addr] == 1
+	x.mu.Unlock()
+	release()
+	for i := 0; h.Counts()["writecache.worker.done"] == done; i++ { // the flush finishes its clean-up
+		if i > 60000 {
+			r.Inconclusive(fmt.Sprintf("constructed %s: the flush worker did not finish", which))
+			return
+		}
+		time.Sleep(2 * time.Millisecond)
+	}
+	if !again {
+		r.Inconclusive(fmt.Sprintf("constructed %s: the object could not be deleted and put again through the cache", which))
+		return
+	}
+	for _, api := range []string{"Get", "GetBytes", "GetStream", "GetBytesWithMetadataLookup"} {
+		x.read(o, api, 3)
+	}
+	x.flush()
+	if !x.restart() {
+		return
+	}
+	x.read(o, "Get", 3)
+	closed = true
+	x.r.Guard(x.desc, func() { _ = x.sh.Close() })
+	x.judge()
+	r.Count("constructed_delete_and_put_again_inside_a_flush_"+which, 1)
+	r.Eval(1)
+	r.Distinct("constructed|" + which)
 }
 
 func TestVerif_C16(t *testing.T) {
@@ -683,6 +1219,11 @@ func TestVerif_C16(t *testing.T) {
 	hrng := r.Rand("hooks", 0)
 	h.OnPoint(func(name string, _ int) {
 		switch name {
+		case "writecache.flushSingle.deleted", "writecache.worker.done":
+			vf16FlushEnded()
+			return
+		}
+		switch name {
 		case "writecache.flushSingle.read", "writecache.flushSingle.stored", "writecache.flushBatch.read", "writecache.flushBatch.stored",
 			"writecache.delete.file", "writecache.put.file", "shard.put.data", "shard.delete.wc", "shard.delete.meta":
 			hmu.Lock()
@@ -696,6 +1237,8 @@ func TestVerif_C16(t *testing.T) {
 			}
 		}
 	})
+	vf16RunConstructed(r, h, "batch", -1)
+	vf16RunConstructed(r, h, "single", -2)
 	n := r.Pick(10, 150)
 	par := r.Pick(5, 8)
 	sem := make(chan struct{}, par)
@@ -716,6 +1259,9 @@ func TestVerif_C16(t *testing.T) {
 	}
 	if cnt["writecache.flushSingle.stored"]+cnt["writecache.flushBatch.stored"] == 0 {
 		r.Inconclusive("no flush step point was hit (hooks H3 not compiled into this tree, or no flush happened)")
+	}
+	if r.Counter("phase_client_puts_again_while_a_batch_is_written") == 0 || r.Counter("puts_ok_through_cache_of_a_deleted_object") == 0 {
+		r.Inconclusive("no object was deleted and created again around a background flush batch")
 	}
 	if r.Counter("cache_read_hits") == 0 || r.Counter("cache_read_misses_fell_back_to_blobstor") == 0 || r.Counter("reads_found_identical") == 0 {
 		r.Inconclusive("reads did not observe both cache hits and fall-backs to the blobstor")
